@@ -288,6 +288,14 @@ impl Frame {
             group_data.bytes.extend_from_slice(l);
             buf = r;
             self.reading_data_index += 1;
+            if self.toc.is_single_entry() {
+                // Offsets (and errors) recorded while the only section was still incomplete may come
+                // from parsing truncated data; forget them now that the section is complete.
+                self.all_group_offsets.lf_group.store(0, Ordering::Relaxed);
+                self.all_group_offsets.hf_global.store(0, Ordering::Relaxed);
+                self.all_group_offsets.pass_group.store(0, Ordering::Relaxed);
+                self.all_group_offsets.has_error.store(0, Ordering::Relaxed);
+            }
         }
         Ok(buf)
     }
@@ -304,6 +312,12 @@ impl Frame {
 }
 
 impl Frame {
+    fn incomplete_section_error() -> Error {
+        Error::Bitstream(jxl_bitstream::Error::Io(
+            std::io::ErrorKind::UnexpectedEof.into(),
+        ))
+    }
+
     pub fn try_parse_lf_global<S: Sample>(&self) -> Option<Result<LfGlobal<S>>> {
         Some(if self.toc.is_single_entry() {
             if self.all_group_offsets.has_error.load(Ordering::Relaxed) != 0 {
@@ -331,6 +345,11 @@ impl Frame {
                 }
                 Err(e) if !loaded && e.unexpected_eof() => Err(e),
                 Err(e) => {
+                    // Truncated data can fail in ways other than EOF (bits past the end read as zero):
+                    // while the section is incomplete this only means "need more data".
+                    if !loaded {
+                        return Some(Err(Self::incomplete_section_error()));
+                    }
                     self.all_group_offsets.has_error.store(1, Ordering::Relaxed);
                     Err(e)
                 }
@@ -405,6 +424,11 @@ impl Frame {
                 }
                 Err(e) if !loaded && e.unexpected_eof() => None,
                 Err(e) => {
+                    // Truncated data can fail in ways other than EOF (bits past the end read as zero):
+                    // while the section is incomplete this only means "need more data".
+                    if !loaded {
+                        return None;
+                    }
                     self.all_group_offsets.has_error.store(2, Ordering::Relaxed);
                     Some(Err(e))
                 }
@@ -524,6 +548,11 @@ impl Frame {
                 }
                 Err(e) if !loaded && e.unexpected_eof() => Err(e),
                 Err(e) => {
+                    // Truncated data can fail in ways other than EOF (bits past the end read as zero):
+                    // while the section is incomplete this only means "need more data".
+                    if !loaded {
+                        return Some(Err(Self::incomplete_section_error()));
+                    }
                     self.all_group_offsets.has_error.store(3, Ordering::Relaxed);
                     Err(e)
                 }
